@@ -7,6 +7,7 @@ package index
 
 import (
 	"context"
+	"net"
 	"time"
 
 	"github.com/gopacket/gopacket"
@@ -28,8 +29,18 @@ type zzDesc struct {
 
 var zzC02Info = &pcapmetadata.PcapInfo{Filename: "c02.pcap"}
 
+// zzC02Addrs: the endpoints of a stream; with the parameter mixed the stream
+// with id 2 is an IPv6 one (its own host group in the index file).
+func zzC02Addrs(d zzDesc) (c, s []byte) {
+	if zz.Param("mixed", 0) == 1 && d.id == 2 {
+		return []byte{0xfd, 0, 0, 0, 0, 0, 0, 0, 0, 0, 0, 0, 0, 0, 0, 3}, []byte{0xfd, 0, 0, 0, 0, 0, 0, 0, 0, 0, 0, 0, 0, 0, 1, 1}
+	}
+	return []byte{10, 0, 0, byte(d.id + 1)}, []byte{10, 0, 1, byte(1 + d.id%2)}
+}
+
 func zzC02Stream(d zzDesc, pktIndex uint64) *streams.Stream {
-	s := &streams.Stream{ClientAddr: []byte{10, 0, 0, byte(d.id + 1)}, ServerAddr: []byte{10, 0, 1, 1}, ClientPort: d.cport, ServerPort: d.sport}
+	ca, sa := zzC02Addrs(d)
+	s := &streams.Stream{ClientAddr: ca, ServerAddr: sa, ClientPort: d.cport, ServerPort: d.sport}
 	add := func(t time.Duration, dir reassembly.TCPFlowDirection, n int) {
 		ci := gopacket.CaptureInfo{Timestamp: zzBase.Add(t)}
 		pcapmetadata.AddPcapMetadata(&ci, zzC02Info, pktIndex)
@@ -157,6 +168,54 @@ func zzQuery(form int, tagBits []bool) (query.ConditionsSet, func(d zzDesc) bool
 				}
 				return r
 			}
+	case 11, 12: // [-]chost:10.0.0.X  /  [-]shost:fd00::1:X  (literal address, X symbolic; streams of both address families)
+		invert := zz.Choice("q.invert", 2) == 1
+		x := byte(zz.Range("q.x", 0, 5))
+		host := net.IP{10, 0, 0, x}
+		src := query.HostConditionSourceTypeClient
+		if form == 12 {
+			host = net.IP{0xfd, 0, 0, 0, 0, 0, 0, 0, 0, 0, 0, 0, 0, 0, 1, x}
+			src = query.HostConditionSourceTypeServer
+		}
+		return query.ConditionsSet{{&query.HostCondition{HostConditionSources: []query.HostConditionSource{{Type: src}}, Host: host, Mask4: zzFull4, Mask6: zzFull6, Invert: invert}}},
+			func(d zzDesc) bool {
+				c, sv := zzC02Addrs(d)
+				h := c
+				if form == 12 {
+					h = sv
+				}
+				if len(h) != len(host) {
+					return invert
+				}
+				return (h[len(h)-1] == x) != invert // (all other bytes are equal by construction)
+			}
+	case 13, 14: // @sub:id:S [-]chost:@sub:chost@ / [-]shost:@sub:shost@ : the host of another stream
+		invert := zz.Choice("q.invert", 2) == 1
+		S := zz.Range("q.s", 0, 3)
+		src := query.HostConditionSourceTypeClient
+		if form == 14 {
+			src = query.HostConditionSourceTypeServer
+		}
+		idc := func(f, n int) *query.NumberCondition {
+			return &query.NumberCondition{Summands: []query.NumberConditionSummand{{SubQuery: "sub", Type: query.NumberConditionSummandTypeID, Factor: f}}, Number: n}
+		}
+		return query.ConditionsSet{{idc(1, -S), idc(-1, S),
+				&query.HostCondition{HostConditionSources: []query.HostConditionSource{{Type: src}, {SubQuery: "sub", Type: src}}, Mask4: zzFull4, Mask6: zzFull6, Invert: invert}}},
+			func(d zzDesc) bool {
+				pick := func(d zzDesc) []byte {
+					c, sv := zzC02Addrs(d)
+					if form == 14 {
+						return sv
+					}
+					return c
+				}
+				r := false
+				for _, o := range zzVisible {
+					same := string(pick(o)) == string(pick(d))
+					r = zz.Or(r, zz.And(int(o.id) == S, same != invert))
+				}
+				return r
+			}
 	default: // time: some packet in [ref-T1, ref-T2]: ltime >= ref-T1 and ftime <= ref-T2
 		T1 := int64(zz.Range("q.t1", 0, 1<<35-1))
 		T2 := int64(zz.Range("q.t2", 0, 1<<35-1))
@@ -169,6 +228,11 @@ func zzQuery(form int, tagBits []bool) (query.ConditionsSet, func(d zzDesc) bool
 }
 
 const zzNumQueryForms = 10
+
+var (
+	zzFull4 = net.IP{255, 255, 255, 255}
+	zzFull6 = net.IP{255, 255, 255, 255, 255, 255, 255, 255, 255, 255, 255, 255, 255, 255, 255, 255}
+)
 
 // zzVisible: the visible population (for query forms that refer to other streams)
 var zzVisible []zzDesc
